@@ -159,7 +159,7 @@ class WireOnly(Family):
             except Exception as ex:  # noqa
                 raise Viol('contains() on a filter with empty data raised %s' % type(ex).__name__, True, '%s: %s' % (type(ex).__name__, ex),
                            'C20.empty_filter_zerodiv' if isinstance(ex, ZeroDivisionError) else None)
-            if r is not True:
+            if not r:
                 raise Viol('a filter with empty data must match every element', True, r)
             try:
                 f.insert(le)
@@ -231,12 +231,12 @@ class Histories(BFSFamily):
             if got != model:
                 raise Viol('set bits are not exactly the union of the BIP37 schedule bits of the inserted elements', sorted(model), sorted(got))
             for i in inserted:
-                if f.contains(lib_elem(ELEMS[i])[0]) is not True:
+                if not f.contains(lib_elem(ELEMS[i])[0]):
                     raise Viol('inserted element %d reported absent (false negative)' % i, True, False)
         for i, e in enumerate(ELEMS):
             le, raw = lib_elem(e)
             wantc = R.bits_for(raw, nb, nh, tw) <= model
-            if f.contains(le) != wantc:
+            if bool(f.contains(le)) != wantc:
                 raise Viol('contains(element %d) differs from the schedule-defined answer' % i, wantc, f.contains(le))
         key = (history[0][1], bytes(f.vData), f.nHashFuncs, f.nTweak, f.nFlags, type(f.vData).__name__)
         full = len(model) == nb * 8
